@@ -158,11 +158,54 @@ def other_rules(F, res):
     for hname in ("on_did_open", "on_did_change"):
         h = F.fn(SRV + hname)
         reach_avc = L.reaches({SRV + "apply_vfs_change"}) | {SRV + "apply_vfs_change"}
-        spawns = [b for b, t in h.calls() if callee(t) == SRV + "spawn_update_diagnostics"]
+        reach_sud = L.reaches({SRV + "spawn_update_diagnostics"}) | {SRV + "spawn_update_diagnostics"}
+        spawns = [b for b, t in h.calls() if any(x in reach_sud and x.startswith(SRV) for x in F.call_targets(h, t))]
         applies = [b for b, t in h.calls() if any(x in reach_avc for x in F.call_targets(h, t))]
         ok = bool(spawns) and all(any(h.dominates(a, s) for a in applies) for s in spawns)
         res.ob("W4", "%s/apply-before-diagnostics" % hname, "%s applies the change to the analysis host before it recomputes diagnostics" % hname,
                ok, where=h.loc(), how="apply sites %d dominate spawn_update_diagnostics: %s" % (len(applies), ok))
+    # a change cancels the running diagnostics of EVERY open document (one analysis host): a handler that applies one must
+    # recompute them for every open document, else a document whose computation was cancelled keeps an empty/stale list
+    memo = {}
+
+    def respawns_all(path, depth=0):
+        if path in memo:
+            return memo[path]
+        memo[path] = False
+        f = F.fns.get(path)
+        if f is None or not f.blocks or depth > 3:
+            return False
+        d_ = FL.Defs(f)
+        loops = [f.natural_loop(tl, hd) for tl, hd in f.back_edges()]
+        for b, t in f.calls():
+            c = callee(t) or ""
+            if c == SRV + "spawn_update_diagnostics":
+                for body in loops:
+                    if b not in body:
+                        continue
+                    for b2, t2 in f.calls():
+                        if b2 in body and PM.short(callee(t2) or callee_def(t2)).endswith("Iterator::next"):
+                            dep = FL.depends(F, f, d_, t2["args"][0])
+                            if any(x.endswith("::keys") or x.endswith("::iter") for x in dep["calls"]) and "opened_files" in _fields_in(f, d_, dep):
+                                memo[path] = True
+            elif c.startswith(SRV) and c != path and respawns_all(c, depth + 1):
+                memo[path] = True
+        return memo[path]
+
+    def _fields_in(f, d_, dep):
+        names = set()
+        for b, i, s_ in f.stmts():
+            rv = s_.get("rv") or {}
+            pl = rv.get("place")
+            if isinstance(pl, dict):
+                for e in pl.get("p", []):
+                    if isinstance(e, dict) and e.get("n"):
+                        names.add(e["n"])
+        return names
+    for hname in ("on_did_open", "on_did_change"):
+        res.ob("W4", "%s/all-open-documents" % hname, "%s recomputes the diagnostics of every open document (the change it applied cancelled all "
+               "running diagnostics tasks, not only this document's)" % hname, respawns_all(SRV + hname), where=F.fn(SRV + hname).loc(),
+               how="spawn_update_diagnostics in a loop over opened_files: %s" % respawns_all(SRV + hname))
     sud = F.fn(SRV + "spawn_update_diagnostics")
     snaps = [b for b, t in sud.calls() if (callee(t) or "").startswith(SRV + "spawn_with_snapshot")]
     repl = [b for b, t in sud.calls() if PM.short(callee(t) or callee_def(t)) == "Option::replace"]
